@@ -119,7 +119,7 @@ def _lead_work(chunk):
 # ---------------------------------------------------------------------------
 # (b) rolling through the environment
 
-ACTION_KINDS = ["+w", "-w", "0", "w+"]
+ACTION_KINDS = ["+w", "-w", "0", "w+", "small", "-small"]
 
 
 def bdays(start, end, calendar_days=False):
@@ -185,7 +185,8 @@ def run_roll(name, year, rolls, stride, phase, script, spread, threshold, calend
     prev_lead = None
     for k in range(1, len(days_)):
         kind = ACTION_KINDS[script[(k - 1) % len(script)]]
-        w = {"+w": w0, "-w": -w0, "0": 0.0, "w+": w0 + 0.02}[kind]
+        # "small": a position worth less than the 5% threshold, reached by cutting a larger one
+        w = {"+w": w0, "-w": -w0, "0": 0.0, "w+": w0 + 0.02, "small": 0.03, "-small": -0.03}[kind]
         D = days_[k - 1]
         lead = ref_lead(cs, D, month)
         try:
@@ -228,7 +229,7 @@ def roll_cases(tier):
     out = []
     classes = [("ES", 2021), ("VX", 2021)] if tier == "quick" else [("ES", 2021), ("VX", 2021), ("NK", 2021), ("ZN", 2021), ("ES", 2019)]
     n = 3 if tier == "quick" else 4
-    scripts = list(itertools.product(range(4), repeat=n))
+    scripts = list(itertools.product(range(len(ACTION_KINDS)), repeat=n))
     for name, year in classes:
         strides = [1, 2, 3, 4, 5] if name != "VX" else [1]
         rolls = 1 if tier == "quick" else 2
@@ -287,7 +288,7 @@ def run(tier, **kw):
     rep.set("rule", "lead resolution: for 8 classes x start years x spans {1,3} years x month offsets {0,1,2}: every last-trading instant L, L-1s, L+1s, "
                     "the midpoint of every interval and one instant before the first (complete for a piecewise-constant function), each also through the "
                     "shared clock (symbol, Exchange[chain], allocation key); roll episodes: chains x stride 1-5 business days x every phase x periodic "
-                    "action scripts (all 4^3 quick / 4^4 thorough over {+w,-w,0,w+small}) x spread {0, 0.2%} x threshold {0, 5%}; grids for which no step "
+                    "action scripts (all 6^3 quick / 6^4 thorough over {+w,-w,0,w+small, +3%, -3%}) x spread {0, 0.2%} x threshold {0, 5%}; grids for which no step "
                     "falls in [last trading, expiry) of some contract are outside the statement's proviso and skipped (counted); non-trivial = lead points + episodes that rolled")
     rep.set("samples", [{"part": "lead", "cls": "ES", "year": 2021, "span": 1, "offset": 1},
                         {"part": "roll", "case": ["ES", 2021, 1, 3, 2, [0, 1, 3], 0.002, 0.05, False]}])
